@@ -594,7 +594,7 @@ func tierOf(name string) tierCfg {
 	if name == "thorough" {
 		c := tierCfg{ns: []int{1, 2, 3, 4, 5, 6, 7}, sleepNs: []int{1, 2, 3, 4}, sleepLens: []int{1, 3, 150}, crashNs: []int{1, 2, 3, 4}, crashDelays: []int{0, 2}, crashEvery: 1,
 			callCrashNs: []int{2, 3}, callStride: 3, reorderNs: []int{1, 2, 3}, holdNs: []int{1, 2, 3}, holdLens: []int{1, 3}, absentNs: []int{3, 4, 5, 6, 7}, repeat: 16, twoDevN: 2, twoDevStride: 6, staggerNs: []int{4, 5, 6},
-			longSleepNs: []int{2, 3, 4}, pairCrashNs: []int{1, 2, 3, 4}, pairStride: 2, pairGaps: []int{1, 2, 5, 30}}
+			longSleepNs: []int{2, 3}, pairCrashNs: []int{1, 2, 3, 4}, pairStride: 2, pairGaps: []int{1, 2, 5, 30}}
 		if os.Getenv("C13_LONG_OUTAGES") != "" {
 			// a member that stays away for 150 rounds after a cancellation at ANY round, and a pooled transaction that is
 			// never mined before it expires: some of these schedules do not terminate in the harness and have not been
